@@ -8,6 +8,9 @@ from harness import common
 from harness.common import Coverage, Failure
 
 CORRESPONDENCES = [
+    'the per-rank sequence of data collectives (group members, kind, element count, root) of the unmodified KFACPreconditioner under '
+    'simdist == extracted KfacComm.kfac_issues (the rank-dependent guards of step / load_state_dict / hooks, the bucket machine of C08, '
+    'the control machine of C05) for every rank, configuration and history',
     'per-rank issue logs of the unmodified KFACPreconditioner (simdist) are accepted by the verified checker proj_ok_b '
     '(one global collective order exists), are identical under >= 3 schedules, and every run completes without '
     'mismatch / foreign group / non-member root / deadlock',
@@ -18,12 +21,16 @@ TRUSTED = [
     'to NCCL/gloo is assumed; real transport time-outs and CUDA streams are outside the model',
     'that every wait follows its issue (hypothesis Hwait) holds by construction of the future-returning API and is '
     'checked structurally by simdist (a future exists only after its issue)',
-    'kfac_proj (the K-FAC machine model producing the global order for every configuration and history) is NOT proved; '
-    'the tie establishes the global-order condition for every observed run with the verified checker instead',
+    'kfac_comm_proj covers the data collectives of hooks, step(), load_state_dict() and memory_usage(); the new_group calls of '
+    'the constructor and the GPT-NeoX paths are covered per observed run by the verified checker proj_ok_b only',
+    'inverse workers given to the model come from a public KAISAAssignment built with the same arguments (C06 / C17); '
+    'dtype equality of matching collectives is checked by simdist (not modelled: inst.idtype = 0)',
 ]
-THEOREMS = ['proj_ok_sound', 'members_issue_same_sequence', 'no_foreign_group', 'no_deadlock', 'every_execution_completes']
-NOTES = ('Partial: the theorems hold for every program that is a projection of one global order; that K-FAC programs are such '
-         'projections is established per observed run by the verified checker (proj_ok_sound), not for all configurations by a theorem.')
+THEOREMS = ['proj_ok_sound', 'members_issue_same_sequence', 'no_foreign_group', 'no_deadlock', 'every_execution_completes',
+            'kfac_comm_proj', 'kfac_never_stalls']
+NOTES = ('kfac_comm_proj proves, for every KAISA grid, method, layer table, bucket capacity and history, that the K-FAC programs are '
+         'projections of one global order (hence never stall, kfac_never_stalls); the tie checks that the generator IS what the code issues. '
+         'Constructor new_group calls and GPT-NeoX communication are covered per observed run by proj_ok_b (proj_ok_sound).')
 
 KINDS = {'all_reduce': 1, 'broadcast': 2, 'all_gather': 3, 'reduce_scatter': 4, 'all_gather_object': 5, 'barrier': 6, 'new_group': 7}
 
@@ -53,7 +60,8 @@ def encode_logs(w, W):
 
 
 def run(tier, seed, rng):
-    from harness import kfacrun, kfacgen
+    from harness import kfacrun, kfacgen, kfaccomm
+    gen_checked = 0
     cov = Coverage('random configurations (world 1-8, every divisor as gradient-worker count, both methods, pre-division, '
                    'colocation, bucket capacities 0 / tiny / 25 MB, symmetric, hook / no-hook, accumulation 1-3, constant or '
                    'callable intervals) x random histories (train / eval iterations, state_dict and memory_usage on all ranks or '
@@ -65,6 +73,13 @@ def run(tier, seed, rng):
     margs, keep = [], []
     for k in range(n):
         cfg = kfacgen.gen_cfg(rng, tier)
+        # dtype combinations: parameters, factors and second-order data may each be float32 or float64
+        if rng.random() < 0.3:
+            cfg['model_dtype'] = 'float64'
+        if rng.random() < 0.25:
+            cfg['inv_dtype'] = rng.choice(['float32', 'float64'])
+        if rng.random() < 0.2:
+            cfg['factor_dtype'] = rng.choice(['float32', 'float64'])
         hist = kfacgen.gen_history(rng, tier, cfg)
         W = cfg['W']
         case = {'cfg': cfg, 'history': hist}
@@ -76,8 +91,10 @@ def run(tier, seed, rng):
             cov.count('event', e[0])
         seqs = []
         bad = None
+        w0 = None
         for si, pol in enumerate(pols[:3]):
             w = kfacrun.run(cfg, hist, W, seed=seed + 7 * k + si, policy=pol)
+            w0 = w0 or w
             if not w.ok:
                 bad = (pol, seed + 7 * k + si, f'errors={w.errors[:2]} deadlock={w.deadlock} exceptions={dict(list(w.exceptions.items())[:2])}')
                 break
@@ -97,6 +114,14 @@ def run(tier, seed, rng):
                                     oracle_rejects=True, correspondence=CORRESPONDENCES[0], theorems=THEOREMS,
                                     oracle='equal per-rank issue sequences under all schedules'))
             continue
+        # (c) the observed data collectives are exactly what the proved generator issues
+        diff, ncmp = kfaccomm.compare(cfg, hist, w0)
+        gen_checked += ncmp
+        if diff:
+            failures.append(Failure(what='observed collectives differ from KfacComm.kfac_issues: ' + diff[:400], case=case, impl=diff[:600],
+                                    model='KfacComm.kfac_issues', oracle_rejects=False, correspondence=CORRESPONDENCES[0],
+                                    theorems=['kfac_comm_proj', 'kfac_never_stalls'],
+                                    oracle='simdist found no stall under the explored schedules and proj_ok_b is evaluated separately'))
         logs, members = seqs[0]
         margs.append(('proj_ok', [members, [[list(x) for x in l] for l in logs]]))
         keep.append((case, sum(len(l) for l in logs)))
@@ -110,6 +135,7 @@ def run(tier, seed, rng):
                                     correspondence=CORRESPONDENCES[0], theorems=THEOREMS,
                                     oracle='simdist found no stall under the explored schedules'))
     cov.extra['collectives_checked'] = tot
+    cov.extra['collectives_compared_with_generator'] = gen_checked
     cov.extra['schedules_per_case'] = 3
     return cov, failures
 
